@@ -98,7 +98,15 @@ impl AttributeParser {
     }
 
     fn parse_group(&mut self, name: Ident, group: TokenStream) -> Nested {
-        Nested::Named(name, NestedValue::Group(group))
+        // Consume everything up to (and including) the next comma, so that the
+        // nested attribute following `name(...)` is parsed from its first token.
+        let tail = self.collect_tail(Empty);
+
+        if tail.is_empty() {
+            Nested::Named(name, NestedValue::Group(group))
+        } else {
+            Nested::Unexpected(tail)
+        }
     }
 
     fn parse_keyword(&mut self, keyword: Ident, name: Ident) -> Nested {
